@@ -326,12 +326,14 @@ def run_fault(case):
             now = time.time()
             entries = {}
             for i, age_days in enumerate(fault['ages']):
+                # an age is either one number (accessed and written then) or [access age, write age]: an entry that was
+                # written long ago but read recently is in use
+                a_age, m_age = (age_days if isinstance(age_days, (list, tuple)) else (age_days, age_days))
                 pth = os.path.join(vd, 'entry%d.pkl' % i)
                 with open(pth, 'wb') as f:
                     f.write(b'payload%d' % i)
-                t = now - age_days * 86400
-                os.utime(pth, (t, t))
-                entries[pth] = age_days
+                os.utime(pth, (now - a_age * 86400, now - m_age * 86400))
+                entries[pth] = a_age
             os.utime(pk, (now - fault['own_age'] * 86400, os.path.getmtime(pk)))
             entries[pk] = fault['own_age']
             lock = os.path.join(w.cdir, 'PARSO-CACHE-LOCK')
@@ -427,7 +429,9 @@ class C17(Prop):
             st.builds(lambda o: {'kind': 'splice', 'offset': o}, st.integers(0, 4000)),
             st.builds(lambda n, a: {'kind': 'interleave', 'chunks': n, 'at': a}, st.integers(1, 12), st.integers(0, 11)),
             st.builds(lambda ages, own, lock: {'kind': 'maintenance', 'ages': ages, 'own_age': own, 'lock_age': lock},
-                      st.lists(st.sampled_from([0.1, 1, 10, 29, 29.4, 31, 45, 400]), min_size=1, max_size=5),
+                      st.lists(st.one_of(st.sampled_from([0.1, 1, 10, 29, 29.4, 31, 45, 400]),
+                                         st.tuples(st.sampled_from([0.04, 1, 20, 29, 31, 60]), st.sampled_from([0.04, 10, 31, 45, 400])).map(list)),
+                               min_size=1, max_size=5),
                       st.sampled_from([0, 1, 20, 29]), st.sampled_from([0.5, 1.5, 3, 100])),
             st.builds(lambda s, f, i, e: {'kind': 'inject', 'scenario': s, 'func': f, 'index': i, 'errno': e},
                       st.sampled_from(['save', 'load', 'cleanup']), st.sampled_from(PATCH_POINTS[:-1]), st.integers(0, 3),
@@ -474,7 +478,7 @@ class C17(Prop):
                 for idx in range(counts.get(func, 0)):
                     for en in sorted(ERRNOS):
                         yield {'module': 0, 'fault': {'kind': 'inject', 'scenario': scenario, 'func': func, 'index': idx, 'errno': en}}
-        for ages in ([0.1, 29, 31, 45], [1, 10], [400], [29.4, 31]):
+        for ages in ([0.1, 29, 31, 45], [1, 10], [400], [29.4, 31], [[0.04, 45], [1, 400], [40, 1]], [[0.5, 31], [35, 35]]):
             for own in (0, 20):
                 for lock in (0.5, 1.5, 100):
                     yield {'module': 1, 'fault': {'kind': 'maintenance', 'ages': ages, 'own_age': own, 'lock_age': lock}}
